@@ -2939,6 +2939,10 @@ class ContractionTree:
                 self.info[l]["centrality"], self.info[r]["centrality"]
             )
 
+        # the default surface order depends on these, so any
+        # contractors compiled for it are now stale
+        self.contraction_cores.clear()
+
     def get_hypergraph(self, accel=False):
         """Get a hypergraph representing the uncontracted network (i.e. the
         leaves).
